@@ -164,7 +164,9 @@ def run(ctx, rep):
                 continue
         if (c1 - c0, c2 - c1, c3 - c2, c4 - c3) != (1, 1, 1, 1):
             rep.violate(f"eval_count increments {(c1 - c0, c2 - c1, c3 - c2, c4 - c3)} != (1,1,1,1)", "C07:eval-count", case)
-        if not (f1 == float(f2) or (math.isnan(f1) and math.isnan(float(f2)))):
+        # both entry points must report the same fitness wherever it is finite (where the equation is non-finite the
+        # gradient entry point of AGraph takes its NaN exception path: known finding F1c of C02, not a C07 matter)
+        if (math.isfinite(f1) or math.isfinite(float(f2))) and not (f1 == float(f2)):
             rep.violate(f"fitness from __call__ ({f1}) differs from get_fitness_and_gradient ({f2})", "C07:fitness-paths-differ", case)
         # exact residuals and tangents
         try:
@@ -172,29 +174,16 @@ def run(ctx, rep):
             tabs_max = 0
             for i in range(M):
                 if L == 0:
-                    from harness.mpeval import mp_eval
-                    v = mp_eval(stack_l, x[i], cvals)
-                    if isinstance(v, str):
-                        ok = False
-                        break
-                    val = v
+                    val, _, _ = mp_forward_ad(stack_l, x[i], cvals, "x", 0)
                 for k in range(L):
                     val, tan, tabs = mp_forward_ad(stack_l, x[i], cvals, "c", k)
                     scale = mpmath.mpf(float(y[i, 0])) if rel else 1
                     Jrows[k].append(tan / scale)
                     tabs_max = max(tabs_max, float(tabs))
-                if L == 0:
-                    try:
-                        val, _, _ = mp_forward_ad(stack_l, x[i], cvals, "x", 0)
-                    except NotSmooth:
-                        ok = False
-                        break
                 res = val - mpmath.mpf(float(y[i, 0]))
                 if rel:
                     res = res / mpmath.mpf(float(y[i, 0]))
                 r.append(res)
-            if not ok:
-                continue
         except NotSmooth:
             rep.count("oracle", "not smooth / skipped")
             continue
